@@ -1925,14 +1925,16 @@ theorem connectStart_spec (w : World) :
 
 theorem beginConnect_arena (s : Session) (h : s.data.outbound.ArenaInv) :
     s.beginConnect.data.outbound.ArenaInv ∧ s.beginConnect.data.outbound.scratchLen = s.data.outbound.scratchLen := by
-  obtain ⟨hi, _, hm, _, hbl, _⟩ := armReplay_spec s.data.outbound h
+  have hd : s.data.outbound.dropPingreq.ArenaInv := ArenaInv_of_layout h rfl rfl rfl
+  obtain ⟨hi, _, hm, _, hbl, _⟩ := armReplay_spec s.data.outbound.dropPingreq hd
   refine ⟨hi, ?_⟩
-  show s.data.outbound.armReplay.scratchLen = _
+  show s.data.outbound.dropPingreq.armReplay.scratchLen = _
   unfold scratchLen usedAfterCompact capacity
-  have : s.data.outbound.armReplay.retained.map (·.len) = s.data.outbound.retained.map (·.len) := by
+  have : s.data.outbound.dropPingreq.armReplay.retained.map (·.len) = s.data.outbound.retained.map (·.len) := by
     have := congrArg (List.map (fun (t : Nat × Nat × Nat) => t.2.1)) hm
-    simpa [List.map_map, Function.comp_def] using this
+    simpa [List.map_map, Function.comp_def, Outbound.dropPingreq] using this
   rw [this, hbl]
+  rfl
 
 /-- **`connect` up to its first await.** With the CONNECT packet `c` built from the session after
 the resets and `room` = arena capacity minus the retained packets: if the encoder fails for `room`
